@@ -25,7 +25,7 @@ def register(R):
     TLS = "easynetwork/lowlevel/api_async/transports/tls.py"
     SL, RL = "self.__transport_send_lock.held_by_me", "self.__transport_recv_lock.held_by_me"
     locks_free = f"not {SL} and not {RL}"
-    mods = ["ghost.tls_cause", "ghost.WIRE", "ghost.IN", "ghost.recv_calls", "ghost.EOF", "ghost.io_errors", "ghost.TLSOUT", "ghost.locks_held",
+    mods = ["ghost.tls_cause", "ghost.tls_ops_returned", "ghost.WIRE", "ghost.IN", "ghost.recv_calls", "ghost.EOF", "ghost.io_errors", "ghost.TLSOUT", "ghost.locks_held",
             "self._read_bio.eof", "self._read_bio.pending", "self._write_bio.eof", "self._write_bio.pending",
             "self._AsyncTLSStreamTransport__transport_send_lock.held_by_me", "self._AsyncTLSStreamTransport__transport_recv_lock.held_by_me",
             "self._AsyncTLSStreamTransport__incoming_reader.buffer.data"]
@@ -35,7 +35,7 @@ def register(R):
         params={"ssl_object_method": f"fn:{TLS}:AsyncTLSStreamTransport.__write_all_to_ssl_object", "args": "tuple[SSLObjectModel,deque]"},
         result="obj",
         requires=[("locks-free", locks_free)],
-        loops={1: {"inv": [f"not {SL}", f"not {RL}", consA]}},
+        loops={1: {"inv": [f"not {SL}", f"not {RL}", consA, "ghost.locks_held == old(ghost.locks_held)"]}},
         ensures=[("backlog-drained", "len(args[1].items) == 0", "C04"),
                  ("plaintext-handed-to-tls-is-exactly-the-backlog-in-order", "ghost.TLSOUT == old(ghost.TLSOUT) + flat(old(args[1].items))", "C04 C12"),
                  ("locks-released", locks_free, "C12")],
